@@ -477,7 +477,7 @@ tp_task_handler_post_int(tp_event_p ev, tp_task_p tptask, int cb_ret) {
 		tpt_ev_q_enable_args(1, TP_EV_TIMER, TP_F_DISPATCH,
 		    TP_FF_T_MSEC, tptask->timeout, &tptask->tp_timer);
 	}
-	if (0 != (tptask->event_flags & TP_F_DISPATCH) ||
+	if (0 != (tptask->event_flags & (TP_F_DISPATCH | TP_F_ONESHOT)) ||
 	    TP_EV_TIMER == ev->event) {
 		tpt_ev_q_enable_args(1, tptask->event,
 		    tptask->event_flags, 0, 0, &tptask->tp_data);
